@@ -2,6 +2,7 @@
   C09 (evaluator level): `callPure`, first half of the name table.
 -/
 import CklVerif.Lemmas.C09EvalNatives
+import CklVerif.Lemmas.C17EvalBase
 namespace Ckl.C09E
 open Ckl
 
@@ -23,6 +24,7 @@ theorem callPure_groupA (name : String) (args : List (String × RVal)) (d : Opti
   split at h
   all_goals first
     | (exfalso; simp only [groupA, List.mem_cons, List.mem_nil_iff, String.reduceEq, or_false, or_self] at hn; done)
+    | (exfalso; rcases callDate_some_name h with rfl | rfl | rfl <;> simp [groupA] at hn; done)
     | (cases h <;> pa_auto)
 
 set_option maxHeartbeats 400000 in
@@ -33,6 +35,7 @@ theorem callPure_groupB (name : String) (args : List (String × RVal)) (d : Opti
   split at h
   all_goals first
     | (exfalso; simp only [groupB, List.mem_cons, List.mem_nil_iff, String.reduceEq, or_false, or_self] at hn; done)
+    | (exfalso; rcases callDate_some_name h with rfl | rfl | rfl <;> simp [groupB] at hn; done)
     | (cases h <;> pa_auto)
 
 end Ckl.C09E
